@@ -234,6 +234,7 @@ pub fn demo() {
         rust_log: None,
         file_ops: vec![],
         tz: None,
+        outage: None,
         ev_delay_us: vec![],
         connects: vec![KConnect { outcome: KOutcome::Accept, segments: segs, close_at_us: None, rst: false, eintr_reads: vec![] }],
         events: vec![
